@@ -99,6 +99,91 @@ def check_a(program: tuple, max_m: int, media: Tuple[str, ...]) -> Dict[str, Any
     return out
 
 
+# ---- part C: the checkpoint is taken while the process is paused ---------------------------------------------------------
+
+def observe_paused(program: tuple, pause_at: int, medium: str, restore: bool) -> Tuple[Any, List[str], int, bool]:
+    """Run with a pause request before tick ``pause_at``; when the process is paused and the loop quiescent, bundle it,
+    drop the instance and its loop, restore on a fresh loop (if ``restore``), then play and run to the end."""
+    from .c07 import InBase
+    cls = programs.make_class(program, InBase)
+    world = ckpt.CkptWorld((), list(RESUMES), medium)
+    prev, programs.ENV = programs.ENV, world
+    restored = False
+    ticks = 0
+    try:
+        loop = world._new_loop()
+        proc = cls(inputs=None, pid='p0', loop=loop)
+        loop.create_task(proc.step_until_terminated())
+        requested = False
+        for _ in range(300):
+            if not requested and ticks == pause_at and not proc.has_terminated():
+                proc.pause('checkpoint-pause')
+                requested = True
+            if loop.tick():
+                ticks += 1
+                continue
+            if proc.has_terminated():
+                break
+            pending = [g for g, f in sorted(world.gates.items()) if not f.done()]
+            if proc.paused:
+                if restore and not restored:
+                    bundle = ckpt.through(persistence.Bundle(proc), medium)
+                    loop = world._new_loop()  # shuts the old loop down: the old instance is gone
+                    proc = bundle.unbundle(persistence.LoadSaveContext(loop=loop))
+                    world.attach(proc)
+                    restored = True
+                    if not proc.paused:
+                        world.errors.append('restored process is not paused')
+                    loop.create_task(proc.step_until_terminated())
+                    continue
+                proc.play()
+            elif pending:
+                world.gates[pending[0]].set_result(f'g{pending[0]}')
+            elif proc.state == PS.WAITING:
+                proc.resume(world.resume_script.pop(0) if world.resume_script else 'r')
+            else:
+                world.errors.append(f'stuck: {proc.state}')
+                break
+        obs = (outcome(proc), repr(sorted(proc.outputs.items())), tuple(proc._trace),
+               tuple((t[0], t[1], t[2], t[4]) for t in world.trace if t[3] == 'enter'), proc.status)
+        return obs, list(world.errors), ticks, restored
+    finally:
+        programs.ENV = prev
+        world.finish()
+
+
+def check_c(program: tuple, media: Tuple[str, ...]) -> Dict[str, Any]:
+    out: Dict[str, Any] = {'n': 0, 'violations': [], 'nontrivial': 0, 'restores': 0}
+    _, errors, ticks, _ = observe_paused(program, -1, media[0], False)
+    out['n'] += 1
+    if errors:
+        return out
+    for medium in media:
+        for pause_at in range(0, ticks + 1):
+            out['n'] += 2
+            case = {'part': 'C', 'program': program, 'pause_at': pause_at, 'medium': medium}
+            try:
+                # the reference is the same paused run without the checkpoint / restore in the middle
+                ref, ref_errors, _, _ = observe_paused(program, pause_at, medium, False)
+                if ref_errors:
+                    continue
+                got, errors, _, restored = observe_paused(program, pause_at, medium, True)
+            except Exception as exc:  # noqa: BLE001
+                out['violations'].append({'clause': 'restore-raised', 'features': {'exc': type(exc).__name__, 'part': 'C'},
+                                          'detail': repr(exc), 'case': case})
+                continue
+            if restored:
+                out['nontrivial'] += 1
+                out['restores'] += 1
+            if errors:
+                out['violations'].append({'clause': 'stuck-after-restore', 'features': {'part': 'C'}, 'detail': errors, 'case': case})
+            elif got != ref:
+                what = ['outcome', 'outputs', 'persisted-trace', 'executed-steps', 'status'][next(i for i in range(5) if got[i] != ref[i])]
+                out['violations'].append({'clause': f'differs:{what}', 'features': {'part': 'C'},
+                                          'detail': {'got': got, 'reference': ref}, 'case': case})
+    return out
+
+
 # ---- part B ------------------------------------------------------------------------------------------------------------
 
 ENV: Any = None  # decision source of the running workchain execution
@@ -281,7 +366,10 @@ def _work(job: tuple) -> Dict[str, Any]:
     part, unit, max_m, media = job
     try:
         with explore.watchdog(20 * explore.WATCHDOG_S):
-            res = check_a(unit, max_m, media) if part == 'A' else check_b(unit, max_m, media)
+            if part == 'C':
+                res = check_c(unit, media)
+            else:
+                res = check_a(unit, max_m, media) if part == 'A' else check_b(unit, max_m, media)
     except explore.Hang as hang:
         res = {'n': 1, 'nontrivial': 0, 'restores': 0, 'violations': [{'clause': 'hang', 'features': {'part': part}, 'detail': str(hang),
                                                                        'case': {'part': part, 'unit': unit}}]}
@@ -294,6 +382,7 @@ def run_check(tier: str, seed: int, workers: Any) -> Dict[str, Any]:
     media: Tuple[str, ...] = ('pickle',) if tier == 'quick' else ('pickle', 'deepcopy', 'yaml')
     jobs = [('A', p, max_m, media) for p in programs_a(tier)]
     jobs += [('B', u, 1 if tier == 'quick' else 2, media[:1] if tier == 'quick' else media[:2]) for u in outlines_b(tier)]
+    jobs += [('C', p, 0, media) for p in programs_a(tier)]
     k = seed % len(jobs)
     jobs = jobs[k:] + jobs[:k]
     total: Dict[str, Any] = {'n': 0, 'violations': [], 'nontrivial': 0, 'restores': 0}
@@ -316,7 +405,7 @@ def run_check(tier: str, seed: int, workers: Any) -> Dict[str, Any]:
         'programs': len(jobs), 'process_programs': n_a, 'workchain_outlines': len(jobs) - n_a, 'restores': total['restores'],
         'rule': f'part A: {n_a} generated Process programs (sync/async steps, Continue with/without arguments, Wait, outputs, '
                 'finished/unsuccessful/killed/excepted endings) x every subset of <= M state-entry boundaries; part B: '
-                f'{len(jobs) - n_a} WorkChain outlines x every decision sequence x every subset of boundaries; at each chosen '
+                f'{sum(1 for j in jobs if j[0] == "B")} WorkChain outlines x every decision sequence x every subset of boundaries; at each chosen '
                 'boundary: Bundle -> medium -> abandon the instance (exception out of the ENTERED callback) -> unbundle on a '
                 'fresh loop -> continue; compared with the uninterrupted run; non-trivial = at least one restore',
         'samples': [{'part': 'A', 'program': programs.describe(jobs[0][1]) if jobs[0][0] == 'A' else repr(jobs[0][1]),
@@ -332,6 +421,8 @@ def run_check(tier: str, seed: int, workers: Any) -> Dict[str, Any]:
 def replay(doc: Dict[str, Any]) -> List[dict]:
     from ..cli import to_tuple
     case = doc['case']
+    if case['part'] == 'C':
+        return check_c(to_tuple(case['program']), (case['medium'],))['violations']
     if case['part'] == 'A':
         res = check_a(to_tuple(case['program']), len(case['restore_at']) or 1, (case['medium'],))
     else:
